@@ -570,6 +570,73 @@ fn doc_of(spec: &[(&'static str, char)]) -> Doc {
     Doc { text: text.clone(), lay: Layout { text, pieces }, lexemes }
 }
 
+/// Neighbour grid: the class of a lexeme is a matter of its own text, whatever stands in front of
+/// it or behind it.  Every ordered pair of ~80 representative lexemes (keywords in three letter
+/// cases, type keywords, word operators, identifiers, numbers, strings, punctuation, operators,
+/// addresses), separated by a blank, a line break, a comment, or nothing where the two may touch.
+/// One document per (first lexeme, separator): a line per second lexeme.  Texts need not parse.
+const NEIGHBOURS: &[(&str, char)] = &[
+    ("IF", 'K'), ("THEN", 'K'), ("END_IF", 'K'), ("end_if", 'K'), ("VAR", 'K'), ("END_VAR", 'K'), ("PROGRAM", 'K'), ("TYPE", 'K'), ("Type", 'K'), ("STRUCT", 'K'),
+    ("ARRAY", 'K'), ("OF", 'K'), ("AT", 'K'), ("RETURN", 'K'), ("CONSTANT", 'K'), ("RETAIN", 'K'), ("TO", 'K'), ("EN", 'K'), ("ENO", 'K'), ("eno", 'K'),
+    ("TRUE", 'K'), ("false", 'K'), ("STEP", 'K'), ("ON", 'K'), ("WITH", 'K'), ("FROM", 'K'), ("TASK", 'K'), ("R_EDGE", 'K'), ("READ_ONLY", 'K'), ("FUNCTION_BLOCK", 'K'),
+    ("BOOL", 'T'), ("INT", 'T'), ("Time", 'T'), ("STRING", 'T'), ("WSTRING", 'T'), ("DATE", 'T'), ("TOD", 'T'), ("dt", 'T'), ("LWORD", 'T'),
+    ("AND", 'W'), ("OR", 'W'), ("XOR", 'W'), ("MOD", 'W'), ("NOT", 'W'), ("mod", 'W'),
+    ("x", 'I'), ("abc_1", 'I'), ("_u", 'I'), ("Valve", 'I'),
+    ("1", 'N'), ("2#1010", 'N'), ("1.5", 'N'),
+    ("'a.b'", 'S'), ("\"w\"", 'S'),
+    (".", 'P'), (",", 'P'), (";", 'P'), (":", 'P'), ("(", 'P'), (")", 'P'), ("[", 'P'), ("]", 'P'), ("..", 'P'),
+    (":=", 'O'), ("+", 'O'), ("-", 'O'), ("*", 'O'), ("/", 'O'), ("**", 'O'), ("<", 'O'), (">", 'O'), ("<=", 'O'), (">=", 'O'), ("<>", 'O'), ("=", 'O'), ("&", 'O'), ("=>", 'O'),
+    ("%IX1.2", 'A'), ("%MW1", 'A'), ("%I*", 'A'),
+];
+
+fn neighbour_docs() -> Vec<Vec<(&'static str, char)>> {
+    let mut docs = vec![];
+    for &(a, ka) in NEIGHBOURS {
+        for (sep, ks) in [(" ", 'B'), ("\r\n", 'L'), ("(*c*)", 'C'), ("", 'B'), ("\t(* a *) ", 'X')] {
+            let mut spec: Vec<(&'static str, char)> = vec![];
+            for &(b, kb) in NEIGHBOURS {
+                spec.push((a, ka));
+                match (sep, ks) {
+                    ("", _) => {
+                        if !crate::lexeme::can_touch(a, b) {
+                            spec.push((" ", 'B'));
+                        }
+                    }
+                    (_, 'X') => {
+                        spec.push(("\t", 'B'));
+                        spec.push(("(* a *)", 'C'));
+                        spec.push((" ", 'B'));
+                    }
+                    _ => spec.push((sep, ks)),
+                }
+                spec.push((b, kb));
+                spec.push(("\n", 'L'));
+            }
+            docs.push(spec);
+        }
+    }
+    docs
+}
+
+fn run_neighbour_grid(rep: &mut Report) {
+    let docs = neighbour_docs();
+    let out = run_items(&docs, 16, |spec, stats| {
+        let doc = doc_of(spec);
+        let uri = "file:///w/neighbours.st";
+        let run = lsp_run(&[lsp_initialize(0), lsp_initialized(), lsp_did_open(uri, 1, &doc.text), lsp_semantic_tokens(json!(7), uri), lsp_shutdown(8), lsp_exit()]);
+        if run.timed_out {
+            stats.inconclusive += 1;
+            return Ok(());
+        }
+        stats.case(true, hash_str(&doc.text));
+        stats.class("neighbour-grid");
+        let fail = |kind: &str, detail: String| Failure::new("neighbours", kind, format!("{:?}: {}", doc.text.chars().take(60).collect::<String>(), detail), json!({"text": doc.text}));
+        let resp = run.frames.iter().find(|f| f["id"] == 7 && f.get("method").is_none()).ok_or_else(|| fail("no-response", "no response to the semanticTokens request".into()))?;
+        judge_unit(&doc, &legend_of(&run.frames), &resp["result"], Unit::Utf16).map(|_| ()).map_err(|(k, d)| fail(&k, d))
+    });
+    rep.add(out);
+}
+
 fn run_tight_grid(rep: &mut Report) {
     let docs = tight_docs();
     let out = run_items(&docs, 8, |spec, stats| {
@@ -607,6 +674,7 @@ pub fn run(ctx: &Ctx) -> i32 {
     });
     rep.add(out);
     run_tight_grid(&mut rep);
+    run_neighbour_grid(&mut rep);
     rep.replay_witnesses(&ctx.findings, &|w| witness(w));
     rep.extra.insert("gates_off".into(), json!(off));
     rep.assumptions = vec![
@@ -648,6 +716,22 @@ pub fn witness(w: &Value) -> Result<(), String> {
 pub fn replay(ctx: &Ctx, v: &Value) -> i32 {
     let r: Result<(), String> = if v["check"] == "witness" {
         witness(&v["inputs"])
+    } else if v["check"] == "tight-joints" || v["check"] == "neighbours" {
+        // a document of one of the two fixed grids, found again by its text
+        let text = v["inputs"]["text"].as_str().unwrap_or("");
+        let mut all = tight_docs();
+        all.extend(neighbour_docs());
+        match all.iter().map(|spec| doc_of(spec)).find(|d| d.text == text) {
+            None => Err("the replay file names a document that is in neither grid".to_string()),
+            Some(doc) => {
+                let uri = "file:///w/grid.st";
+                let run = lsp_run(&[lsp_initialize(0), lsp_initialized(), lsp_did_open(uri, 1, &doc.text), lsp_semantic_tokens(json!(7), uri), lsp_shutdown(8), lsp_exit()]);
+                match run.frames.iter().find(|f| f["id"] == 7 && f.get("method").is_none()) {
+                    None => Err("no response to the semanticTokens request".to_string()),
+                    Some(resp) => judge_unit(&doc, &legend_of(&run.frames), &resp["result"], Unit::Utf16).map(|_| ()).map_err(|(k, d)| format!("{}: {}", k, d)),
+                }
+            }
+        }
     } else {
         let tape: Vec<u8> = v["tape"].as_array().map(|a| a.iter().map(|x| x.as_u64().unwrap_or(0) as u8).collect()).unwrap_or_default();
         let gates = ctx.gates_for("C15");
